@@ -20,6 +20,7 @@ structure RunSt where
   fl : Option FlowsSt := none
   pcfg : Option RCfg := none
   ps : PState := PState.init 0
+  early : Option Int := none   -- dispatcher family: status of the gateway-made early answer
 
 def parseRanges (s : String) : Option (List (Int × Int)) :=
   if s == "-" then some [] else
@@ -120,8 +121,48 @@ def fmtPOut : POut → String
   | .noop => "noop"
   | .retry a => s!"retry after={a}"
 
+def parseEarly (ws : List String) : Option Int :=
+  match kvInt ws "early" with
+  | some e => if e < 100 || e > 599 then none else some e
+  | none => none
+
+/-- `n` fresh sequences `<prefix>-<i>`, one first response each; returns (#retry, #noop). -/
+def bulkRun (cfg : RCfg) (pre : String) (status : Int) : Nat → Nat → PState → Nat → Nat → PState × Nat × Nat
+  | 0, _, s, r, n => (s, r, n)
+  | fuel + 1, i, s, r, n =>
+    let (s', o) := presp cfg s (pre ++ "-" ++ toString i) true status
+    match o with
+    | .noop => bulkRun cfg pre status fuel (i + 1) s' r (n + 1)
+    | .retry _ => bulkRun cfg pre status fuel (i + 1) s' (r + 1) n
+
 def policyStep (s : RunSt) (ws : List String) : RunSt × String :=
   match ws with
+  | "dcfg" :: r =>
+    match parseEarly r, s.pcfg, parsePcfg r with
+    | some e, none, some (cfg, t0) => ({ s with pcfg := some cfg, ps := PState.init t0, early := some e }, "ok")
+    | _, _, _ => (s, "bad-op")
+  | "dreq" :: r =>
+    match s.pcfg, s.early, kv r "id", kv r "seq", kvNat r "early" with
+    | some cfg, some st, some idE, some sE, some e =>
+      if e == 0 then (s, "pass")
+      else if e == 1 then
+        let (ps', o) := presp cfg s.ps (pctDec sE) (pctDec idE == pctDec sE) st
+        ({ s with ps := ps' }, s!"early status={st} {fmtPOut o}")
+      else (s, "bad-op")
+    | _, _, _, _, _ => (s, "bad-op")
+  | "dresp" :: r =>
+    match s.pcfg, s.early, kv r "id", kv r "seq", kvInt r "status" with
+    | some cfg, some _, some idE, some sE, some status =>
+      let (ps', o) := presp cfg s.ps (pctDec sE) (pctDec idE == pctDec sE) status
+      ({ s with ps := ps' }, fmtPOut o)
+    | _, _, _, _, _ => (s, "bad-op")
+  | "pbulk" :: r =>
+    match s.pcfg, kvNat r "n", kv r "prefix", kvInt r "status" with
+    | some cfg, some n, some preE, some status =>
+      if n > 100000 then (s, "bad-op") else
+      let (ps', nr, nn) := bulkRun cfg (pctDec preE) status n 0 s.ps 0 0
+      ({ s with ps := ps' }, s!"bulk retry={nr} noop={nn}")
+    | _, _, _, _ => (s, "bad-op")
   | "pcfg" :: r =>
     match s.pcfg, parsePcfg r with
     | none, some (cfg, t0) => ({ s with pcfg := some cfg, ps := PState.init t0 }, "ok")
@@ -147,7 +188,8 @@ def runStep (s : RunSt) (line : String) : RunSt × String :=
   | ["case", id] => ({}, s!"case {id}")
   | w :: r =>
     if w == "fmode" || w == "fproc" || w == "fx" || w == "fq" || w == "fleak" then flowsStep s (w :: r)
-    else if w == "pcfg" || w == "presp" || w == "adv" || w == "jump" then policyStep s (w :: r)
+    else if w == "pcfg" || w == "presp" || w == "adv" || w == "jump" || w == "pbulk"
+        || w == "dcfg" || w == "dreq" || w == "dresp" then policyStep s (w :: r)
     else (s, "bad-op")
   | [] => (s, "bad-op")
 
@@ -161,6 +203,7 @@ structure JudgeSt where
   fev : List FEvent := []        -- most recent first
   pcfg : Option RCfg := none
   pev : List PEvent := []        -- most recent first (reversed at the end)
+  early : Option Int := none
   bad : Option String := none
 
 def setBad (s : JudgeSt) (m : String) : JudgeSt :=
@@ -213,6 +256,49 @@ def judgeStep (s : JudgeSt) (op out : String) : JudgeSt :=
     match parsePcfg r with
     | some (cfg, _) => { s with pcfg := some cfg }
     | none => s
+  | "dcfg" :: r =>
+    match parsePcfg r, parseEarly r with
+    | some (cfg, _), some e => { s with pcfg := some cfg, early := some e }
+    | _, _ => s
+  | "dreq" :: r =>
+    -- a gateway-made early answer is a response of the sequence like any other
+    match s.pcfg, s.early, kv r "id", kv r "seq", kvNat r "early" with
+    | some cfg, some st, some idE, some sE, some e =>
+      if e == 0 then (if out == "pass" then s else setBad s ("request-not-passed:" ++ pctEnc out))
+      else
+        let o : Option POut :=
+          match ows with
+          | ["early", _, "noop"] => some .noop
+          | ["early", _, "retry", _] => (kvNat ows "after").map POut.retry
+          | _ => none
+        match o, kvInt ows "status" with
+        | some o, some got =>
+          if got != st then setBad s s!"early-answer-status={got}-configured={st}"
+          else { s with pev := ⟨pctDec sE, pctDec idE == pctDec sE, inRange cfg st, o⟩ :: s.pev }
+        | _, _ => setBad s ("unparsable-answer:" ++ pctEnc out)
+    | _, _, _, _, _ => s
+  | "pbulk" :: r =>
+    match s.pcfg, kvNat r "n", kv r "prefix", kvInt r "status", ows.head?, kvNat ows "retry", kvNat ows "noop" with
+    | some cfg, some n, some preE, some status, some "bulk", some nr, some nn =>
+      if nr + nn != n then setBad s "bulk-count-mismatch"
+      else
+        let inR := inRange cfg status
+        let evs := (List.range n).map fun i =>
+          (⟨pctDec preE ++ "-" ++ toString i, true, inR, if i < nr then .retry 0 else .noop⟩ : PEvent)
+        { s with pev := evs.reverse ++ s.pev }
+    | _, _, _, _, _, _, _ => setBad s ("unparsable-answer:" ++ pctEnc out)
+  | "dresp" :: r =>
+    match s.pcfg, kv r "id", kv r "seq", kvInt r "status" with
+    | some cfg, some idE, some sE, some status =>
+      let o : Option POut :=
+        if out == "noop" then some .noop
+        else match ows with
+          | ["retry", _] => (kvNat ows "after").map POut.retry
+          | _ => none
+      match o with
+      | some o => { s with pev := ⟨pctDec sE, pctDec idE == pctDec sE, inRange cfg status, o⟩ :: s.pev }
+      | none => setBad s ("unparsable-answer:" ++ pctEnc out)
+    | _, _, _, _ => s
   | "presp" :: r =>
     match s.pcfg, kv r "id", kv r "seq", kvInt r "status" with
     | some cfg, some idE, some sE, some status =>
